@@ -696,7 +696,21 @@ pub fn parts() -> Vec<Box<dyn PartDyn>> {
 
 fn c01_strat() -> BoxedStrategy<Case> {
     use crate::wire::WStep;
-    let prog = vec(op_strategy(20_000, false, false), 1..25);
+    // one session in seven is a bulk session: only large publishes on 3-6 channels against a
+    // transport that mostly stalls, so that a backlog of hundreds of kilobytes builds up
+    let bulk_op = (crate::gen::props(), 6_000u32..=20_000, any::<bool>()).prop_map(|(props, body_len, via_exchange)| Op::Publish {
+        exchange: "x".into(),
+        routing_key: "bulk".into(),
+        mandatory: false,
+        immediate: false,
+        props,
+        body_len,
+        via_exchange,
+    });
+    let programs = prop_oneof![
+        6 => vec(vec(op_strategy(20_000, false, false), 1..25), 1..=6),
+        1 => vec(vec(bulk_op, 12..25), 3..=6),
+    ];
     let wstep = prop_oneof![
         6 => prop::sample::select(vec![1usize, 2, 3, 7, 8, 9]).prop_map(WStep::Accept),
         4 => (1usize..20_000).prop_map(WStep::Accept),
@@ -704,7 +718,7 @@ fn c01_strat() -> BoxedStrategy<Case> {
         2 => Just(WStep::BlockHold),
     ];
     (
-        vec(prog, 1..=6),
+        programs,
         vec(0u8..4, 1..=6),
         vec(any::<u16>(), 0..12),
         vec(wstep, 0..200),
